@@ -25,8 +25,8 @@ ImplCoverOK(r, P) ==
   LET K  == ImplNodes(r)
       PL == PLevels(P)
   IN /\ Cardinality(K) = Len(r.nodes)
-     /\ \A n \in K : n[1] \in 1..Depth /\ n[2] < 2^n[1]
-     /\ \A n \in K : \A k \in 1..(n[1] - 1) : <<k, n[2] % (2^k)>> \notin K   \* disjoint
+     /\ \A n \in K : n[1] \in 0..Depth /\ n[2] < 2^n[1]                  \* (level 0: the root itself)
+     /\ \A n \in K : \A k \in 0..(n[1] - 1) : <<k, n[2] % (2^k)>> \notin K   \* disjoint
      /\ \A n \in K : n[2] \notin PL[n[1]]                                  \* no punctured input covered
      /\ SumSizes(K) = N - Cardinality(P)                                   \* every other input covered
 ImplForwardSecure(r, P) ==
